@@ -112,8 +112,10 @@ Hypothesis Href : forall o, run o = ref_run tsync o.
 
 Ltac cases o :=
   rewrite Href; unfold ref_run;
+  let args := fresh "args" in let yaml := fresh "yaml" in let unpack := fresh "unpack" in
+  let load := fresh "load" in let runo := fresh "runo" in let x0 := fresh "x0" in
   destruct o as [args yaml unpack load runo]; cbn [o_args o_yaml o_unpack o_load o_run];
-  destruct args as [|a0 args]; destruct yaml; destruct unpack; destruct load; destruct runo;
+  destruct args as [|x0 args]; destruct yaml; destruct unpack; destruct load; destruct runo;
   cbn [succeeds negb fst snd app ref_prefix].
 
 (** C15: the target is created and started only after NewConfigWithFile, Unpack and LoadFilter all returned
@@ -208,10 +210,10 @@ Lemma clone_child : forall st parent pth,
               ks_progs st2 = ks_progs st.
 Proof.
   intros st parent pth W Hf. cbv zeta. unfold clone. rewrite Hf. cbn [fst snd].
-  eexists. split; [|cbn; auto].
-  unfold find_thread. cbn [ks_threads t_tid].
   set (c := {| t_tid := ks_next_tid st; t_nnp := t_nnp pth; t_filters := t_filters pth;
                t_strict := t_strict pth; t_priv := t_priv pth |}).
+  exists c. split; [|cbn; auto].
+  unfold find_thread. cbn [ks_threads].
   change (ks_next_tid st) with (t_tid c). apply find_thread_in_app_new.
   pose proof (wf_tid _ W) as F. rewrite Forall_forall in *. intros x Hx. specialize (F x Hx). cbn [t_tid c]. lia.
 Qed.
@@ -224,6 +226,39 @@ Hypothesis Hload : load_spec kstate do_seccomp do_prctl load.
     -no-new-privs variable, [pol] the policy that Unpack stored, compiled for the native architecture *)
 Definition sandbox_filt (nnp:bool) (tsync:N) (prog:res (list instr)) : filt :=
   {| f_nnp := nnp; f_flag := tsync; f_prog := prog |}.
+
+(** with NoNewPrivs requested and thread-sync, a successful load leaves the bit set on EVERY thread *)
+Lemma sandbox_nnp_everywhere : forall w f,
+  wf (w_k w) -> wf_filt f -> f_nnp f = true -> has_flag (f_flag f) FLAG_TSYNC = true ->
+  snd (load w f) = LNil ->
+  forall th, In th (ks_threads (w_k (fst (load w f)))) -> t_nnp th = true.
+Proof.
+  intros w f W Wf Hn HT Hnil th Hth.
+  destruct (load_nil_in_force_step load Hload w f W Wf Hnil) as [_ [p [Ep _]]].
+  destruct (load_step load Hload w f Wf) as [j [_ H]]. cbv zeta in H. rewrite Ep in H.
+  set (t := thread_at kstate w j) in *.
+  destruct H as [[_ [_ [_ [Hr _]]]]|[_ [Hk [Hr _]]]]; [rewrite Hr in Hnil; discriminate|].
+  unfold pre_seccomp in Hk, Hr. rewrite Hn in Hk, Hr.
+  set (st1 := prctl_set_nnp (w_k w) t) in *.
+  assert (W1: wf st1) by (apply prctl_set_nnp_wf; exact W).
+  destruct (do_seccomp st1 t SECCOMP_SET_MODE_FILTER (f_flag f) (fprog p)) as [[st2 r1] e2] eqn:Es.
+  cbn [fst snd] in Hk, Hr. rewrite Hr in Hnil.
+  destruct (do_seccomp_filter_cases _ _ _ _ _ _ _ Wf Es)
+    as [[_ He]|[[_ [-> [_ [caller [Hfc Hun]]]]]|[_ [caller [len [arr [Hfc [_ [Hst' _]]]]]]]]].
+  - apply N.eqb_neq in He. rewrite He in Hnil. discriminate.
+  - exfalso. rewrite HT in Hnil. cbn [negb andb N.eqb] in Hnil. rewrite orb_false_r in Hnil.
+    destruct (r1 =? 0) eqn:E0; [|discriminate Hnil]. apply N.eqb_eq in E0. subst r1.
+    apply first_unsyncable_in in Hun. exact (wf_tid_nonzero _ _ W1 Hun eq_refl).
+  - assert (Hcn: t_nnp caller = true).
+    { unfold st1 in Hfc. rewrite prctl_set_nnp_find in Hfc.
+      destruct (find_thread (w_k w) t) as [th0|] eqn:E0; [|discriminate Hfc]. cbn [option_map] in Hfc.
+      apply find_in in E0. destruct E0 as [_ E0]. apply N.eqb_eq in E0. rewrite E0 in Hfc.
+      inversion Hfc. reflexivity. }
+    rewrite Hk, Hst' in Hth. apply attach_threads in Hth. destruct Hth as [th0 [_ ->]].
+    rewrite HT. destruct (t_tid th0 =? t_tid caller).
+    + cbn. exact Hcn.
+    + cbn. rewrite Hcn. apply orb_true_r.
+Qed.
 
 (** C15: the decision the target observes is [decide] of the parsed policy.
     [w] is the sandbox process when main() calls LoadFilter (any well-formed state: any number of Go runtime
@@ -263,8 +298,6 @@ Proof.
   - exact Hdec.
   - intro Hn. exists cth. split; [exact Hc|]. rewrite Hcn.
     (* the parent has the bit: LoadFilter set it on the loading thread and the thread-sync handed it on *)
-    subst nnp.
-    destruct (load_nil_in_force_step load Hload w f W Wf Hnil) as [j [p' [_ _]]].
-    exact (sandbox_nnp_everywhere load Hload w f W Wf eq_refl HT Hnil pth Hpin).
+    subst nnp. exact (sandbox_nnp_everywhere w f W Wf eq_refl HT Hnil pth Hpin).
 Qed.
 End Target.
